@@ -68,6 +68,8 @@ def local(v):
         out += [VStr(s + [97]), VStr(s + [122]), VStr([122] + s), VBytes(s)]
         if s:
             out += [VStr(s[:-1]), VStr(s[1:]), VStr([122] + s[1:]), VStr(s[:-1] + [122])]
+    elif k == "bytes" and v["bs"] == [97, 98]:
+        out += [VBytes(v["bs"] + [97]), VStr(v["bs"]), VBytes(v["bs"][1:]), VObj("bytearray_ab", [], [])]
     elif k == "bytes":
         s = v["bs"]
         out += [VBytes(s + [97]), VStr(s)]
